@@ -526,7 +526,11 @@ class ClientWorldObjectManager:
                 cached_obj = normalize_object_update_compressed_data(cached_obj_data)
                 cached_obj["UpdateFlags"] = update_flags
                 cached_obj["RegionHandle"] = handle
-                self._track_new_object(region_state, Object(**cached_obj), msg)
+                if obj is not None:
+                    # Already tracked, just with a different CRC than the one we had cached
+                    self._update_existing_object(obj, cached_obj, ObjectUpdateType.UPDATE, msg)
+                else:
+                    self._track_new_object(region_state, Object(**cached_obj), msg)
                 continue
 
             # Don't know about it and wasn't cached.
